@@ -171,6 +171,8 @@ class Checker:
         elif isinstance(d, ast.VariableDeclaration): self.var(d,path,sc)
     def var(self,d,path,sc):
         try:
+            if self.infer and d.var_type is None and isinstance(d.expr, ast.BottomConstant) and d.expr.t is None:
+                self.alarm('omitted-type-with-untyped-bottom-initializer',path,None,None,d.name)
             if self.infer and d.var_type is None:
                 act=self.synth(d.expr,path+[d.name],sc)
                 rec=conv_any(d.inferred_type)
@@ -247,6 +249,8 @@ class Checker:
         except Unknown as u: self.stats['unknown:'+str(u)]+=1; ret=None
         try:
             act=self.synth(f.body,path,fsc,None if (self.infer and f.ret_type is None) else ret)
+            if self.infer and f.ret_type is None and self.lang in ('kotlin','scala') and _calls_itself(f.body, f.name):
+                self.alarm('recursive-function-without-declared-result-type',path,None,None,f.name)
             if self.infer and f.ret_type is None:
                 self.stats['infer-ret']+=1
                 if act!=ret:
@@ -381,7 +385,7 @@ class Checker:
             except Unknown as u: self.stats['unknown:'+str(u)]+=1
             return B(self.void)
         if isinstance(e, ast.FunctionCall):
-            return self.call(e,path,sc)
+            return self.call(e,path,sc,expected)
         raise Unknown('expr-kind:'+type(e).__name__)
     def diamond(self,e,d,T,path,sc,expected):
         """omitted constructor type arguments (inference mode).  Only the DEFINITE failure is reported: in
@@ -395,7 +399,8 @@ class Checker:
             return False
         have_expected = expected is not None and expected[0]=='c' and expected[1]==T[1]
         determinable=set()
-        for f in d.fields:
+        for f,a_ in zip(d.fields,list(e.args)+[None]*len(d.fields)):
+            if isinstance(a_, ast.BottomConstant) and a_.t is None: continue    # `null` / TODO() determines nothing
             try: ft=conv_any(f.field_type)
             except Unknown: continue
             for p in d.type_parameters:
@@ -435,7 +440,7 @@ class Checker:
             if t[0]=='c': return ('c',t[1],tuple(x if x[0]=='*' else (x[0],sb(x[1],False)) for x in t[2]))
             return t
         return sb(t,True)
-    def call(self,e,path,sc):
+    def call(self,e,path,sc,expected=None):
         B=lambda n:('c',n,())
         # resolve
         params=None; ret=None; fdecl=None; m={}; cm={}
@@ -478,6 +483,29 @@ class Checker:
                         self.stats['bound-checks']+=1
                         if not self.le(fm[ren[p.name][1]],b): self.alarm('call-typearg-bound',path,b,fm[ren[p.name][1]],e.func+'.'+p.name)
                     except Unknown as u: self.stats['unknown:'+str(u)]+=1
+        if self.infer and fdecl.type_parameters and getattr(e,'can_infer_type_args',False) and self.lang=='kotlin':
+            # omitted type arguments of a generic call: a type parameter that occurs in no parameter type whose
+            # argument determines it, and (absent an expected type) not in the result type, cannot be inferred
+            def occurs(t,name):
+                if t[0]=='v': return t[1]==name
+                if t[0]=='c': return any(a[0]!='*' and occurs(a[1],name) for a in t[2])
+                return False
+            det=set()
+            for p_,a_ in zip(fdecl.params,e.args):
+                if isinstance(a_.expr, ast.BottomConstant) and a_.expr.t is None: continue
+                try: pt_=conv_any(p_.param_type)
+                except Unknown: continue
+                for tp_ in fdecl.type_parameters:
+                    if occurs(pt_,tp_.name): det.add(tp_.name)
+            if expected is not None:
+                try:
+                    rt_=conv_any(fdecl.ret_type if fdecl.ret_type is not None else fdecl.inferred_type)
+                    for tp_ in fdecl.type_parameters:
+                        if occurs(rt_,tp_.name): det.add(tp_.name)
+                except Unknown: pass
+            missing=[tp_.name for tp_ in fdecl.type_parameters if tp_.name not in det]
+            if missing:
+                self.alarm('kotlin-cannot-infer-type-argument',path,None,expected,'type parameter(s) %s of %s cannot be inferred'%(missing,e.func))
         # args
         ps=list(fdecl.params); args=list(e.args)
         named={a.name for a in args if a.name}
@@ -525,6 +553,15 @@ class Checker:
         r=sig[2][-1]
         if r[0] in ('t','out'): return r[1]
         raise Unknown('refcall-ret-in/star')
+
+def _calls_itself(body, name):
+    """does the expression (not a nested declaration) contain a receiver-less call of `name`?"""
+    from mc import irwalk
+    for _, o in irwalk.walk(body):
+        if isinstance(o, ast.FunctionCall) and o.func == name and o.receiver is None and not o.is_ref_call:
+            return True
+    return False
+
 
 class Scope:
     def __init__(self,ck,parent,cls=None,func=None):
